@@ -118,6 +118,9 @@ def check_formula(case, ctx):
         chain = [cur]
         for j in range(case["horder"]):
             cur = ocp.der(cur)
+            if not (isinstance(cur, ca.MX) and cur.is_symbolic()):
+                fails.append(Fail("chain-member-not-a-signal", feats, {"member": j + 1, "der": str(cur)[:80]}))
+                return fails
             chain.append(cur)
     dbs = ocp.der(B.syms["bs"]) if case["sorder"] else None
     names = [n for n, d in B.decl.items() if n not in ("hc", "bs")]
